@@ -68,6 +68,7 @@ fn check_stream(e: &Enc, bytes: &[u8], cut: Option<usize>, stats: &mut Stats, vi
                 Some(c) => vec![Call::new(&bytes[..c], c * 4 + 64, false).to_json(), Call::new(&bytes[c..], (bytes.len() - c) * 4 + 64, true).to_json()],
             };
             j.put("calls", J::Arr(calls));
+            j.put("loop", J::Bool(true));
             j.put("detail", J::obj().set("message", J::s(&msg)).set("stream", J::s(&hex(bytes))));
             if vios.wants("C01", kind) {
                 vios.add(Violation { prop: "C01".into(), kind: kind.into(), msg, replay: j });
